@@ -18,7 +18,7 @@ def rust_vec(elems):
     return 'vec![%s]' % ', '.join(elems)
 
 
-def model_code(m, path):
+def model_code(m, path, rules_text=None):
     """Rust source of `mod <m>` = emitted module + probe impl + driver glue"""
     name, mod = m.name, m.name.lower()
     L = []
@@ -71,7 +71,7 @@ def model_code(m, path):
     A('pub const TYPES: &[&str] = &[%s];' % ', '.join(json.dumps(t) for t in tlist))
     A('pub const PLAIN_NEW: &[bool] = &[%s];' % ', '.join('true' if t in plain_new else 'false' for t in tlist))
     A('pub const RELS: &[(&str, &[usize], bool, bool)] = &[%s];' % ', '.join('(%s, &[%s], %s, %s)' % (json.dumps(r), ', '.join(str(tlist.index(x)) for x in m.rel_types[r]), 'true' if r in funcs else 'false', 'true' if r in defs else 'false') for r in m.rels))
-    A('pub const HAS_NONSURJECTIVE_RULES: bool = %s;' % ('true' if re.search(r'^// - \w+Def\(', m.src.text, re.M) else 'false'))
+    A('pub const HAS_NONSURJECTIVE_RULES: bool = %s;' % ('true' if re.search(r'^// - \w+Def\(', getattr(m, 'rules_text', None) or m.src.text, re.M) else 'false'))
     A('pub type M = %s;' % name)
     A('pub fn new_model() -> M { M::new() }')
     A('pub fn count(m: &M, ty: usize) -> usize { match ty { %s _ => unreachable!() } }' % ' '.join('%d => m.%s_equalities.len(),' % (i, t) for i, t in enumerate(tlist)))
@@ -143,7 +143,7 @@ def rules_code(m, rl, tlist, funcs):
     """`pub const RULES: &[Rule]` -- one entry per sub-rule family (and per implicit functionality rule): premise atoms and conclusions over
     numbered variables, taken from the flat-rule comments of the emitted module (ages dropped)"""
     from . import emit_sn
-    subs, _ = emit_sn.parse_module(m.src.text)
+    subs, _ = emit_sn.parse_module(getattr(m, 'rules_text', None) or m.src.text)
     camel_types = {T: i for i, (t, T) in enumerate(m.types.items())}
     seen = set()
     out = []
@@ -210,13 +210,12 @@ def iter_item_shapes_ok(m):
     return True
 
 
-def build(files=None):
-    """returns (binary path, [model names]); raises RuntimeError if anything does not build"""
+def build(files=None, component=False):
+    """returns (binary path, [model names]); raises RuntimeError if anything does not build.
+    component=True: the probes are compiled in COMPONENT mode (module + one library per rule) and the harness is linked against the component libraries (C19)"""
     from units import gen as U
     files = U.probe_files() if files is None else files
-    out = G.generate(files)
-    models = [G.Model(out[k]) for k in sorted(out)]
-    wd = os.path.join(driver.workdir(), 'gen_native')
+    wd = os.path.join(driver.workdir(), 'gen_native_component' if component else 'gen_native')
     os.makedirs(wd, exist_ok=True)
     env = dict(os.environ)
     env['OUT_DIR'] = wd
@@ -225,6 +224,23 @@ def build(files=None):
                         os.path.join(driver.REPO, 'eqlog-runtime/src/lib.rs'), '-o', rlib], env=env, stdout=subprocess.PIPE, stderr=subprocess.PIPE, text=True)
     if p.returncode != 0:
         raise RuntimeError('eqlog-runtime does not compile:\n' + p.stderr[-3000:])
+    link = []
+    if component:
+        out, cod = G.generate_components(files, rlib)
+        for root, _, fns in sorted(os.walk(cod)):
+            libs = sorted(fn for fn in fns if fn.endswith('.rlib'))
+            if libs:
+                link += ['-L', 'native=' + root]
+                for fn in libs:
+                    link += ['-l', 'static:+verbatim=' + fn]
+    else:
+        out = G.generate(files)
+    models = [G.Model(out[k]) for k in sorted(out)]
+    if component:
+        # the flat-rule comments live in the component sources; the rule list and the `!` test are taken from the module-mode text of the same probes
+        mout = G.generate(files)
+        for m, k in zip(models, sorted(out)):
+            m.rules_text = open(mout[k]).read()
     src = ['// GENERATED by kit/gen_native.py -- do not edit', '#![allow(unused, dead_code, non_snake_case)]']
     for m in models:
         src.append(model_code(m, m.src.path))
@@ -240,7 +256,7 @@ def build(files=None):
     with open(main, 'w') as f:
         f.write('\n'.join(src))
     exe = os.path.join(wd, 'gen_native')
-    p = subprocess.run(['rustc', '--edition', '2021', '--cap-lints', 'allow', '-O', '-C', 'debug-assertions=on', '--extern', 'eqlog_runtime=' + rlib,
+    p = subprocess.run(['rustc', '--edition', '2021', '--cap-lints', 'allow', '-O', '-C', 'debug-assertions=on', '--extern', 'eqlog_runtime=' + rlib] + link + [
                         main, '-o', exe], env=env, stdout=subprocess.PIPE, stderr=subprocess.PIPE, text=True)
     if p.returncode != 0:
         raise RuntimeError('the emitted modules + harness do not compile:\n' + p.stderr[-4000:])
